@@ -577,6 +577,13 @@ fn exec_vfy(t: &[&str]) -> Option<CaseOut> {
         }
         Ok(Err(())) => {
             stats.push("vfy.reject".into());
+            // oracle: a reply that is valid under the reference, strictly inside its window and in
+            // the form every signer emits must be accepted by the first verification
+            let (v, rt_) = ref_verify(&buf, std::slice::from_ref(&sg), qt, Some(&prev));
+            let canonical = rt_.as_ref().is_some_and(|t| t.alg_plain && t.class == 255 && t.ttl == 0 && t.other.is_empty()) && buf[3] & 0x40 == 0;
+            if first && pok && canonical && matches!(v, RefVerdict::Valid { strict: true }) {
+                fails.push(("TSigVerifier::verify rejected a reply that is valid and timely under the RFC 8945 reference".into(), ""));
+            }
             "err".into()
         }
         Err(p) => {
@@ -802,13 +809,20 @@ fn exec_srv(t: &[&str], cx: &Ctx) -> Option<CaseOut> {
                 if !rs.data.mac.is_empty() {
                     nontrivial = true;
                     if let Some(spec) = specs.iter().find(|s| lower_labels(&s.name) == lower_labels(kname)) {
+                        // (MAC chained on the request MAC over the exact reply bytes; whether the
+                        // client's clock is within the *reply's* fudge is the client's business:
+                        // `Stale` is not held against the server)
                         let (v, _) = ref_verify(&reply, std::slice::from_ref(spec), rq.time, Some(&rq.mac));
-                        if !matches!(v, RefVerdict::Valid { .. }) && rs.data.error.is_none() {
+                        if !matches!(v, RefVerdict::Valid { .. } | RefVerdict::Stale) {
                             fails.push((format!("signed reply does not verify under the RFC 8945 reference ({v:?})"), ""));
                         }
-                        let cv = catch(|| spec.signer().unwrap().verify_message_byte(&reply, Some(&rq.mac), true).is_ok());
-                        if cv != Ok(true) {
-                            fails.push(("signed reply is rejected by TSigner::verify_message_byte".into(), ""));
+                        match catch(|| spec.signer().unwrap().verify_message_byte(&reply, Some(&rq.mac), true).is_ok()) {
+                            Ok(true) => {}
+                            Ok(false) => fails.push(("signed reply is rejected by TSigner::verify_message_byte".into(), "")),
+                            Err(p) => {
+                                let (class, _) = panic_class(&p);
+                                fails.push((format!("TSigner::verify_message_byte panicked on the server's signed reply: {p}"), class));
+                            }
                         }
                     }
                 }
@@ -1232,7 +1246,8 @@ pub fn run(o: &Opts, rec: &mut Recorder) {
 
     // ---- (4) replies: server-side TBS, client-side TBS, TSigVerifier, mutated replies -------
     for (i, (_, signer, m)) in bases.clone().into_iter().enumerate() {
-        for (now_off, au) in [(0i64, true), (signer.fudge as i64 + 5, true), (0, false)] {
+        let f = signer.fudge as i64;
+        for (now_off, au) in [(0i64, true), (f + 5, true), (0, false), (-f, true), (f - 1, true), (-(f - 1), true)] {
             // sign as a client does, keep what it keeps
             let mut req = m.clone();
             let unsigned = req.to_vec().unwrap();
